@@ -11,7 +11,7 @@ python3 - <<'PY'
 import json, re
 src = open('/repo/pools.go').read()
 new = re.sub(r'import\s+"sync"', 'import sync "github.com/asticode/go-astits/verifsync"', src)
-open('/verif/bin/c16/pools.go', 'w').write(new)
-json.dump({"Replace": {"/repo/pools.go": "/verif/bin/c16/pools.go", "/repo/verifsync/verifsync.go": "/verif/shim/verifsync.go"}}, open('/verif/bin/c16/overlay.json', 'w'))
+open('/verif/bin/c16/pools_overlay.txt', 'w').write(new)
+json.dump({"Replace": {"/repo/pools.go": "/verif/bin/c16/pools_overlay.txt", "/repo/verifsync/verifsync.go": "/verif/shim/verifsync.go"}}, open('/verif/bin/c16/overlay.json', 'w'))
 PY
 go build -overlay bin/c16/overlay.json -tags "verif c16shim" -o bin/c16sched ./cmd/c16 || true
